@@ -7,6 +7,7 @@ SCHEMA = f'''<xs:schema {XS} targetNamespace="urn:t" xmlns:t="urn:t" elementForm
    <xs:element name="item" maxOccurs="unbounded"><xs:complexType><xs:sequence>
       <xs:element name="name" type="xs:token"/><xs:element name="qty" type="xs:positiveInteger"/>
       <xs:element name="kind" type="xs:token" fixed="article" minOccurs="0"/>
+      <xs:element name="val" minOccurs="0"/>
       <xs:element name="sub" minOccurs="0" maxOccurs="unbounded"><xs:complexType><xs:sequence>
           <xs:element name="leaf" type="xs:int" minOccurs="0" maxOccurs="3"/></xs:sequence>
           <xs:attribute name="ref" type="xs:IDREF"/><xs:attribute name="codeRef" type="xs:int"/></xs:complexType></xs:element>
